@@ -594,6 +594,9 @@ theorem acceptIncoming_inv {r : RecvWindow} {h : Hdr} {p : List Nat} {mtu now : 
   rename_i h4
   split at hok
   · cases hok
+  rename_i h4b
+  split at hok
+  · cases hok
   rename_i h5
   split at hok
   · cases hok
@@ -608,6 +611,23 @@ theorem acceptIncoming_inv {r : RecvWindow} {h : Hdr} {p : List Nat} {mtu now : 
   · simpa using h6
   · simpa using h7
 
+
+/-- an accepted segment is not a continue / ending segment outside an SDU -/
+theorem acceptIncoming_not_orphan {r : RecvWindow} {h : Hdr} {p : List Nat} {mtu now : Nat} {r' : RecvWindow}
+    (hok : r.acceptIncoming h p mtu now = .ok r') : orphanSegment r h = false := by
+  unfold RecvWindow.acceptIncoming at hok
+  split at hok
+  · cases hok
+  split at hok
+  · cases hok
+  split at hok
+  · cases hok
+  split at hok
+  · cases hok
+  split at hok
+  · cases hok
+  rename_i h4b
+  simpa using h4b
 
 theorem integrity_hs {r : RecvWindow} {h : Hdr} {n mtu : Nat} (hc : r.checkDataIntegrity h n mtu = true) :
     h.hs = false := by
